@@ -5,7 +5,7 @@ St  == [scopes |-> scopes, guards |-> guards, held |-> held]
 StP == [scopes |-> scopes', guards |-> guards', held |-> held']
 PrintEdge == PrintT(<<"EDGE", ToJson([from |-> St, act |-> act', res |-> res', to |-> StP])>>)
 SmallForms == {"-", "try_borrow", "borrow_mut", "try_borrow_mut", "try_get_value", "borrow_value", "remove", "take",
-               "or_insert", "and_modify_or_insert", "occ_remove", "try_get_multiple_mut", "get_multiple_mut", "ok", "fail"}
+               "or_insert", "and_modify_or_insert", "occ_remove", "try_get_multiple_mut", "get_multiple_mut", "tuple_try_get_mut", "tuple_distinct", "ok", "fail"}
 PrintEdgeSmall == act'.f \in SmallForms /\ PrintEdge
 TuplesQ == UNION {[1..n -> Type] : n \in 2..3}
 TuplesT == UNION {[1..n -> Type] : n \in 2..4}
